@@ -289,6 +289,12 @@ func c16(w *core.World, r *core.Report) {
 		}
 	}
 
+	// ---- CANCEL-OUTCOME (shared with C05)
+	if cancel := w.Func("pkg/datastore/types", "TransactionManager", "Cancel"); cancel != nil {
+		r.Rule("CANCEL-OUTCOME", 2, "(shared with C05) the answer of TransactionManager.Cancel agrees with what was done: the transaction is unregistered (CleanupTransaction / slot cleared) and a nil error is returned only on the err==nil outcome of THAT call of RollbackInterface.TransactionRollback (an error variable shadowed inside an if-statement is not the one tested afterwards). A swallowed rollback failure answers success for a transaction that is never rolled back.")
+		ruleCancelOutcome(w, r, cancel)
+	}
+
 	// ---- EXPIRY-IDENTITY
 	r.Rule("EXPIRY-IDENTITY", 1, "the timer-triggered rollback decides by OBJECT identity, not by id: in the TransactionManager method reached from the timer callback, the rollback effect is guarded by an equality test between the transaction slot and the *Transaction the expired timer belongs to. A look-up by id would accept a later transaction that re-uses the id.")
 	{
